@@ -3,6 +3,7 @@ package c12
 import (
 	"testing"
 
+	_ "vh/gen/all"
 	"vh/vfrun"
 )
 
